@@ -524,7 +524,7 @@ func checkStreams(p *Prog, l *Ledger) {
 					}
 				case "Stdout":
 					n++
-					if why, ok := allowedStdout[fk]; ok {
+					if why, ok := allowedStdout[strings.Replace(fk, "(*NativeInputFn)", "NativeInputFn", 1)]; ok {
 						l.Discharge(rule, fk+"#os.Stdout", p.InstrPos(in), why, true)
 					} else {
 						l.Violate(rule, fk+"#os.Stdout", p.InstrPos(in), "stdout is accessed outside the documented writers (buffering or extra output would change what stdout carries)")
@@ -545,7 +545,7 @@ func checkStreams(p *Prog, l *Ledger) {
 					n++
 					if fnPkgName(fn) == "main" && fk != "main.run" && fk != "main.runFile" {
 						l.Discharge(rule, fk+"#"+name, p.InstrPos(in), "usage message / prompt written by package main (the path rules of S1 require: message then Exit(64) on bad usage, nothing printed on the script path)", true)
-					} else if why, ok := allowedStdout[fk]; ok {
+					} else if why, ok := allowedStdout[strings.Replace(fk, "(*NativeInputFn)", "NativeInputFn", 1)]; ok {
 						l.Discharge(rule, fk+"#"+name, p.InstrPos(in), why, true)
 					} else {
 						l.Violate(rule, fk+"#"+name, p.InstrPos(in), "writes to stdout from "+fk+": stdout must carry only what the program printed, prompts and usage messages")
@@ -587,6 +587,9 @@ func checkStreams(p *Prog, l *Ledger) {
 func checkInputBuiltin(p *Prog, l *Ledger) {
 	rule := "C19/S4-input"
 	fn := p.Func("interpreter.NativeInputFn.Call")
+	if fn == nil {
+		fn = p.Func("interpreter.(*NativeInputFn).Call") // the same method on a pointer receiver
+	}
 	if fn == nil {
 		l.Undecide(rule, "NativeInputFn.Call", "", "not found")
 		return
